@@ -343,3 +343,41 @@ Theorem compose_upto3 : forall c1 c2, In c1 complexes3 -> In c2 complexes3 -> ch
 Proof. intros c1 c2 H1 H2. exact (lift _ _ (lift _ _ sweep_compose3 c1 H1) c2 H2). Qed.
 Theorem generators_frame_upto3 : forall c, In c complexes3 -> chk_gen_frame c = true.
 Proof. exact (lift _ _ sweep_generators_frame3). Qed.
+
+(* ---------- C12: Vietoris-Rips from a closeness relation ---------- *)
+Definition all_pairs (n : nat) : list (nat * nat) :=
+  flat_map (fun i => map (fun j => (i, j)) (seq (S i) (n - S i))) (seq 0 n).
+Definition points_rep (n : nat) : rep :=
+  fold_left (fun r p => fst (addSimplex r [] (Some (pt p)) None)) (seq 0 n) (empty_rep 1).
+Definition vr_model (n : nat) (close : list (nat * nat)) : option rep :=
+  match vr_build 2 (points_rep n) close with
+  | (g, Ok _) => match flagComplex [] g 3 with (_, f, Ok _) => Some f | _ => None end
+  | _ => None
+  end.
+Definition close_set (close : list (nat * nat)) (V : vset) : bool :=
+  (* every two points of V are a close pair *)
+  (fix go (l : vset) : bool :=
+     match l with
+     | [] => true
+     | p :: t => forallb (fun q => existsb (fun ij => (seteq [pt (fst ij); pt (snd ij)] [p; q])) close) t && go t
+     end) V.
+Definition chk_vr (n : nat) (close : list (nat * nat)) : bool :=
+  match vr_model n close with
+  | Some f =>
+      fam_eq (fam f) (filter (fun V => (length V =? 1) || close_set close V) (nonempty_sublists (map pt (seq 0 n)))) &&
+      list_eqb (simplicesOfOrder f 0) (map pt (seq 0 n)) && wfb f
+  | None => false
+  end.
+Definition chk_vr_monotone (n : nat) (c1 c2 : list (nat * nat)) : bool :=
+  (* c1 is a sub-relation of c2 => the family at c1 is contained in the family at c2 *)
+  if forallb (fun p => existsb (fun q => (fst p =? fst q) && (snd p =? snd q)) c2) c1 then
+    match vr_model n c1, vr_model n c2 with
+    | Some f1, Some f2 => fam_sub (fam f1) (fam f2)
+    | _, _ => false
+    end
+  else true.
+Lemma sweep_vr4 : forallb (fun n => forallb (chk_vr n) (sublists (all_pairs n))) (seq 0 5) = true.
+Proof. vm_compute. reflexivity. Qed.
+Lemma sweep_vr_monotone4 :
+  forallb (fun c1 => forallb (chk_vr_monotone 4 c1) (sublists (all_pairs 4))) (sublists (all_pairs 4)) = true.
+Proof. vm_compute. reflexivity. Qed.
